@@ -491,6 +491,31 @@ theorem ts_roundtrip_nanos_to_iff (dt : NaiveDT) (h : NDTInv dt) (n : Int)
   obtain ⟨dt', e1, _, e2, e3⟩ := from_nanos_total (instNs dt) hi
   exact ⟨rfl, nanos_back_iff dt h hi, dt', e1, e2, e3⟩
 
+/-- milliseconds / microseconds: the count read in the unit rebuilds the value truncated to the unit
+EXACTLY for the non-leap values (for a leap-second value the constructor yields a non-leap value inside
+the following second instead) -/
+theorem ts_roundtrip_units_to_iff (dt : NaiveDT) (h : NDTInv dt) :
+    NaiveDT.timestamp_millis dt = .ok (instNs dt / 1000000) ∧
+    NaiveDT.timestamp_micros dt = .ok (instNs dt / 1000) ∧
+    (NaiveDT.from_timestamp_millis (instNs dt / 1000000) = .ok (some (truncFrac dt 1000000)) ↔ NonLeap dt) ∧
+    (NaiveDT.from_timestamp_micros (instNs dt / 1000) = .ok (some (truncFrac dt 1000)) ↔ NonLeap dt) := by
+  have hr := instSecs_range dt h
+  rw [ts_min_val, ts_max_val] at hr
+  obtain ⟨_, _, _, t3, t4⟩ := id h
+  refine ⟨timestamp_millis_spec dt h, timestamp_micros_spec dt h, ⟨?_, millis_back dt h⟩, ⟨?_, micros_back dt h⟩⟩
+  · intro hx
+    obtain ⟨r, e1, _, e3⟩ := from_millis_floor (instNs dt / 1000000) (by unfold isI64 instNs; omega)
+    rw [e1] at hx; injection hx with hx
+    obtain ⟨_, i2, _⟩ := e3 _ hx
+    unfold NonLeap truncFrac at i2; dsimp only at i2
+    unfold NonLeap; omega
+  · intro hx
+    obtain ⟨r, e1, _, e3⟩ := from_micros_floor (instNs dt / 1000) (by unfold isI64 instNs; omega)
+    rw [e1] at hx; injection hx with hx
+    obtain ⟨_, i2, _⟩ := e3 _ hx
+    unfold NonLeap truncFrac at i2; dsimp only at i2
+    unfold NonLeap; omega
+
 /-! ### calendar and clock fields through C01's specification -/
 
 /-- bridge to C01: a packed date satisfies the representation invariant exactly when it is
